@@ -1057,7 +1057,7 @@ def shard_text(asm: "Assembled", kind: str) -> str:
 # verus
 
 VIOLATION_KINDS = ("postcondition not satisfied", "precondition not satisfied", "invariant not satisfied",
-                   "assertion failed", "possible arithmetic underflow/overflow", "possible division by zero",
+                   "assertion failed", "possible arithmetic underflow/overflow", "possible bit shift underflow/overflow", "possible division by zero",
                    "loop invariant", "decreases not satisfied", "unreachable", "recommendation not met")
 
 
